@@ -1,4 +1,5 @@
 import TpmVerif.Model.Tpm12Core
+import TpmVerif.Spec.Tpm12Pcr
 /-!
   C20 — TPM 1.2 core services (PCR extend chain / reset values / locality rules, SHA-1 thread, TIS hash
   interface).  Property theorems about `Model.Sha1` and `Model.Tpm12.Core`.  The PCR attribute, initial-value
@@ -47,20 +48,9 @@ example : Sha1.sha1 (Sha1.ofString
 
 /-! ### Tables: the generated PCR attributes equal the PC Client table -/
 
-namespace Spec
-/-- expected (pcrReset, pcrResetLocal, pcrExtendLocal), TCG PC Client TIS: PCR 0–15 static, all localities
-    extend; 16 and 23 resettable/extendable from every locality; 17,18 reset by 4, extend by 4,3,2; 19 reset by 4,
-    extend by 3,2; 20 reset by 4,2, extend by 3,2,1; 21,22 reset and extend by 2 only -/
-def pcClient : List (Bool × Nat × Nat) :=
-  List.replicate 16 (false, 0, 0x1f) ++
-  [(true, 0x1f, 0x1f), (true, 0x10, 0x1c), (true, 0x10, 0x1c), (true, 0x10, 0x0c), (true, 0x14, 0x0e),
-   (true, 0x04, 0x04), (true, 0x04, 0x04), (true, 0x1f, 0x1f)]
-/-- initial value byte after power-on: 0–16 and 23 zero, 17–22 all ones -/
-def initByte : List Nat := List.replicate 17 0 ++ List.replicate 6 255 ++ [0]
-end Spec
 
-theorem pcr_table_is_pcclient : pcrAttrib = Spec.pcClient := by decide
-theorem pcr_init_values : pcrInitByte = Spec.initByte := by decide
+theorem pcr_table_is_pcclient : pcrAttrib = Spec.Tpm12Pcr.pcClient := by decide
+theorem pcr_init_values : pcrInitByte = Spec.Tpm12Pcr.initByte := by decide
 theorem num_pcr : TPM_NUM_PCR = 24 ∧ pcrAttrib.length = 24 ∧ pcrInitByte.length = 24 ∧ TPM_LOCALITY_4_PCR = 17 := by decide
 
 /-- reset values: with TOSPresent every resettable PCR resets to zeros; without it 16 and 23 reset to zeros and
